@@ -506,6 +506,21 @@ func (self *Interpreter) memberExpression(node ast.AnalyzedMemberExpression) (*v
 		return nil, i
 	}
 
+	// `base->member` reads a field of an any-object as an option, `base~>member` additionally unwraps it
+	if node.Operator == pAst.ArrowMemberOperator || node.Operator == pAst.TildeArrowMemberOperator {
+		field, found := (*base).(value.ValueAnyObject).FieldsInternal[node.Member.Ident()]
+		if node.Operator == pAst.ArrowMemberOperator {
+			if !found {
+				return value.NewNoneOption(), nil
+			}
+			return value.NewValueOption(field), nil
+		}
+		if !found || field == nil {
+			return nil, value.NewThrowInterrupt(node.Span(), "Called 'unwrap' on a 'null' option value")
+		}
+		return field, nil
+	}
+
 	fields, i := (*base).Fields()
 	if i != nil {
 		return nil, i
